@@ -149,6 +149,84 @@ theorem for3_loop (root : Int) : ∀ (brs : List (List Int)) (v : bt_from_tree.V
       | none => rfl
       | some d => simp only [lastIdx, List.foldl_cons, hp, Option.getD_some, List.getLast?_cons]
 
+/-! ### what the model computes (facts about `Model/BranchTree.lean`, `Model/Subtree.lean`) -/
+
+theorem glookup_addBranch (d : Groups) (k k' : Int) (b : List Int) :
+    glookup (addBranch d k b) k' = if k' = k then some ((glookup d k).getD [] ++ [b]) else glookup d k' := by
+  obtain ⟨x, hx, hset⟩ := step_eq d k b
+  rw [← hset, glookup_eq, Dict.get?_set]
+  by_cases hk : k' = k
+  · subst hk
+    rw [Dict.get?_setdefault] at hx
+    simp only [if_true, glookup_eq]
+    cases hd : Dict.get? d k' with
+    | none => simp [hd] at hx; simp [← hx]
+    | some y => simp [hd] at hx; simp [← hx]
+  · simp only [hk, if_false, glookup_eq, Dict.get?_setdefault]
+    cases Dict.get? d k' <;> simp [hk]
+
+theorem pos?_mem (l : List Int) (x : Int) (h : x ∈ l) : pos? l x = some ((l.idxOf x : Nat) : Int) := by
+  have : l.idxOf x < l.length := List.idxOf_lt_length_of_mem h
+  simp [pos?, this]
+
+/-- **the `branches` dictionary**: when the first node of every branch is a node of the branch tree, the loop succeeds, and under the key
+`k` it files exactly the branches whose first node has the new index `k`, in the order of `get_branches` (no entry when there is none) -/
+theorem fileBranches_spec (root : Int) (m : List Int) : ∀ (brs : List (List Int)) (d : Groups), (∀ b ∈ brs, b.headD root ∈ m) →
+    ∃ d', fileBranches root m brs d = some d' ∧ ∀ k,
+      glookup d' k = (match glookup d k with
+        | some x => some (x ++ brs.filter (fun b => decide (((m.idxOf (b.headD root) : Nat) : Int) = k)))
+        | none => if brs.filter (fun b => decide (((m.idxOf (b.headD root) : Nat) : Int) = k)) = [] then none
+                  else some (brs.filter (fun b => decide (((m.idxOf (b.headD root) : Nat) : Int) = k)))) := by
+  intro brs
+  induction brs with
+  | nil => intro d _; exact ⟨d, rfl, fun k => by cases glookup d k <;> simp⟩
+  | cons b brs ih =>
+    intro d hm
+    have hb := hm b (List.mem_cons_self ..)
+    obtain ⟨d', hd', hsp⟩ := ih (addBranch d ((m.idxOf (b.headD root) : Nat) : Int) b) (fun b' hb' => hm b' (List.mem_cons_of_mem _ hb'))
+    refine ⟨d', by simp only [fileBranches, pos?_mem m _ hb, hd'], fun k => ?_⟩
+    rw [hsp k, glookup_addBranch]
+    simp only [List.filter_cons]
+    generalize ((m.idxOf (b.headD root) : Nat) : Int) = kb
+    by_cases hk : k = kb
+    · subst hk
+      cases glookup d k <;> simp
+    · have hk' : ¬ kb = k := fun c => hk c.symm
+      simp only [hk, hk', if_false, decide_false, Bool.false_eq_true]
+
+theorem mapM_some_map {α β : Type} (f : α → Option β) (g : α → β) : ∀ (l : List α), (∀ x ∈ l, f x = some (g x)) →
+    l.mapM f = some (l.map g) := by
+  intro l
+  induction l with
+  | nil => intro _; rfl
+  | cons a l ih =>
+    intro h
+    simp [List.mapM_cons, h a (List.mem_cons_self ..), ih (fun x hx => h x (List.mem_cons_of_mem _ hx))]
+
+/-- `to_sub_topology` on a table none of whose rows is marked for removal and every parent of which is `-1` or a listed id: nothing is
+dropped, the id map is the id column itself, every parent becomes the position of its id -/
+theorem toSubTopology_total (a b : List Int) (hl : a.length = b.length) (hk : ∀ x ∈ a, x ≠ -2) (hp : ∀ y ∈ b, y = -1 ∨ y ∈ a) :
+    toSubTopology a b = some ⟨b.map (fun y => if y = -1 then -1 else ((a.idxOf y : Nat) : Int)), a⟩ := by
+  have hf : (List.zip a b).filter (fun ip => !decide (ip.1 = -2)) = List.zip a b := by
+    rw [List.filter_eq_self]
+    intro ip hip
+    have := hk ip.1 (List.of_mem_zip hip).1
+    simpa using this
+  have h1 : (List.zip a b).map (·.1) = a := List.map_fst_zip (by omega)
+  have h2 : (List.zip a b).map (·.2) = b := List.map_snd_zip (by omega)
+  simp only [toSubTopology, RefineSub.removal_eq, ne_eq, decide_not, hf, h1]
+  rw [mapM_some_map _ (fun ip => if ip.2 = -1 then -1 else ((a.idxOf ip.2 : Nat) : Int))]
+  · simp only [Option.map_some]
+    congr 2
+    rw [← h2, List.map_map]
+    simp [Function.comp_def, h2]
+  · intro ip hip
+    rcases hp ip.2 (List.of_mem_zip hip).2 with h | h
+    · simp [h]
+    · by_cases hn : ip.2 = -1
+      · simp [hn]
+      · simp [hn, pos?_mem a _ h]
+
 /-- the object the model describes -/
 def toObj (m : BranchTreeM) : BranchTreeObj :=
   ⟨(m.mapping.length : Int), range (m.mapping.length : Int), m.newPid, m.mapping, m.branches⟩
